@@ -374,6 +374,84 @@ def rule_history(facts):
         r.ok("effect", {"append_bytes": "extends self.buf with the chunk"})
     else:
         r.bad("append_bytes|buf", "uncompressed bytes are not appended to the window buffer", pat.where(b))
+    # the other accessors of the accumulating window, by evaluation with buf.len() = n
+    def accum(item):
+        return next((x for x in facts.bodies if x.promoted is None and x.trait == "decode::lzbuffer::LzBuffer" and x.item == item and "Accum" in x.name), None)
+
+    def idx_terms(x):
+        from engine.flow import PosTerms
+        ptx = PosTerms(x)
+        out = []
+        for blk in x.calls():
+            nm = flow.callee(blk.term) or ""
+            if nm.endswith(("Index>::index", "IndexMut>::index_mut")) and pat.has_field(ptx.at(blk.idx, None).of_operand(blk.term.args[0]), "buf"):
+                out.append((blk.idx, ptx.at(blk.idx, None).of_operand(blk.term.args[1])))
+        return out, ptx
+
+    def lf(n, dist=0, acc=None):
+        def f(q):
+            if q[0] == "call" and q[1].endswith("::len"):
+                return n
+            if q[0] == "arg" and q[2] == "dist":
+                return dist
+            if q[0] == "phi" and acc is not None:
+                return acc
+            raise pat.NotEvaluable(q)
+        return f
+    r.sites += 3
+    try:
+        lo_ = accum("last_or")
+        it, _ = idx_terms(lo_) if lo_ is not None else ([], None)
+        if it and all(pat.eval_term(it[0][1], lf(n)) == n - 1 for n in (1, 2, 77)):
+            r.ok("evaluation", {"last_or": "buf[len - 1]"})
+        else:
+            r.bad("accum|last_or", "the previous byte of the accumulating window is not buf[len - 1]", pat.where(lo_) if lo_ is not None else "")
+        ln_ = accum("last_n")
+        it, _ = idx_terms(ln_) if ln_ is not None else ([], None)
+        if it and all(pat.eval_term(it[0][1], lf(n, d)) == n - d for n in (5, 77) for d in (1, 2, 5)):
+            r.ok("evaluation", {"last_n": "buf[len - dist]"})
+        else:
+            r.bad("accum|last_n", "the match byte of the accumulating window is not buf[len - dist]", pat.where(ln_) if ln_ is not None else "")
+        al_ = accum("append_lz")
+        if al_ is not None:
+            from engine.flow import PosTerms
+            pta = PosTerms(al_)
+            ca = cfg(al_)
+            # initial offset, the copy buf.push(buf[offset]), offset += 1, len += len
+            inits = [pta.at(blk.idx, i).of_rvalue(s_.rv, blk.idx) for blk in al_.blocks if not blk.cleanup and not ca.loop_blocks_of(blk.idx)
+                     for i, s_ in enumerate(blk.stmts) if s_.k == "assign" and not s_.place.proj and (al_.locals[s_.place.local].name or "") == "offset"]
+            ok_init = False
+            # the cell read in the first round: index term evaluated at the initial offset must be len - dist
+            idxs = []
+            for pb_ in [blk for blk in al_.calls() if (flow.callee(blk.term) or "").endswith("Vec::push") and ca.loop_blocks_of(blk.idx)]:
+                v_ = pta.at(pb_.idx, None).of_operand(pb_.term.args[1])
+                for q in _sub(v_):
+                    if q[0] == "call" and q[1].endswith(("Index>::index", "Index::index")) and pat.has_field(q, "buf"):
+                        idxs.append(q[2][1])
+            for t_ in inits:
+                for it_ in idxs:
+                    try:
+                        # the index term mentions the loop-carried offset as a phi: substitute the initial value
+                        if all(pat.eval_term(it_, lf(n, d, pat.eval_term(t_, lf(n, d)))) == n - d for n in (5, 77) for d in (1, 5)):
+                            ok_init = True
+                    except (pat.NotEvaluable, pat.Overflow):
+                        pass
+            steps = [pta.at(blk.idx, i).of_rvalue(s_.rv, blk.idx) for blk in al_.blocks if not blk.cleanup and ca.loop_blocks_of(blk.idx)
+                     for i, s_ in enumerate(blk.stmts) if s_.k == "assign" and not s_.place.proj and (al_.locals[s_.place.local].name or "") == "offset"]
+            ok_step = any(all(pat.eval_term(t_, lf(9, 1, acc)) == acc + 1 for acc in (0, 3, 100)) for t_ in steps) if steps else False
+            pushes = [blk for blk in al_.calls() if (flow.callee(blk.term) or "").endswith("Vec::push") and ca.loop_blocks_of(blk.idx)]
+            ok_push = False
+            for pb_ in pushes:
+                v = pta.at(pb_.idx, None).of_operand(pb_.term.args[1])
+                if any(q[0] == "call" and q[1].endswith(("Index>::index", "Index::index")) and pat.has_field(q, "buf") for q in _sub(v)):
+                    ok_push = True
+            if ok_init and ok_step and ok_push:
+                r.ok("evaluation", {"append_lz": "offset = len - dist; push(buf[offset]); offset += 1"})
+            else:
+                r.bad("accum|append_lz", "the accumulating window's copy is not `offset = len - dist; repeat { push(buf[offset]); offset += 1 }` "
+                      "(initial offset ok: %s, step ok: %s, copies from buf: %s)" % (ok_init, ok_step, ok_push), pat.where(al_))
+    except (pat.NotEvaluable, pat.Overflow) as ex:
+        r.bad("accum|terms", "cannot evaluate the index terms of the accumulating window", "decode::lzbuffer::LzAccumBuffer", "unverifiable")
     adds = [tm.of_rvalue(s.rv, 0) for blk in b.blocks for s in blk.stmts if s.k == "assign" and s.place.proj and
             s.place.proj[-1][0] == "field" and s.place.proj[-1][2] == "len"]
     if adds and all(t[0] == "Add" and pat.has_field(t, "len") and pat.has_call(t, "::len") and pat.has_arg(t, "buf") for t in adds):
